@@ -8,7 +8,9 @@ LEVEL_TEXT = ("Lean theorems (Props/C16.lean): the model of NumberLineCli equals
               "text and configuration (run_eq_spec), one output line per input line, numbered lines verbatim, "
               "idempotence for positive start/increment under any second configuration; tie by differential CLI runs.")
 
-LINE_SHAPES = ["", " ", "PRINT A", " leading blank", "10 PRINT", "7", "0 zero first", "05 X", "123456789012345678901 big", "1", "\t tab", "9x", "rem 20"]
+LINE_SHAPES = ["", " ", "PRINT A", " leading blank", "10 PRINT", "7", "0 zero first", "05 X", "123456789012345678901 big", "1", "\t tab", "9x", "rem 20",
+               # characters that str.splitlines() treats as line ends but text-mode reading does not
+               "' ---- page \x0c ----", "A\x0bB", "12 x\x1cy", "n\x85m", "u\u2028v", "\x1d", "3\x1e", "p\u2029"]
 
 
 def model_out(ans):
@@ -77,7 +79,7 @@ def gen_text(rng):
             lines.append(rng.choice(LINE_SHAPES))
         else:
             k = rng.choice([1, 2, 5, 12])
-            lines.append("".join(rng.choice("0123456789 AbZ\t:\"") for _ in range(k)))
+            lines.append("".join(rng.choice("0123456789 AbZ\t:\"\x0c\x0b\x1d\x85\u2028") for _ in range(k)))
     eol = rng.choice(["\n", "\n", "\n", "\r\n", "\r"])
     t = eol.join(lines)
     if lines and rng.random() < 0.75:
